@@ -8,9 +8,9 @@
        evaluated in the enclosing one,
      - the default INTO projection {v: v} is built without a visibility check.
    Definitions only. *)
-From Ferret Require Export Syntax.
+From Ferret Require Export Syntax Eval.
 
-Inductive cres := COk | CNotFound | CNotUnique.
+Inductive cres := COk | CNotFound | CNotUnique | CUnnamed | CFuel.
 
 Definition sframes := list (list name).          (* innermost first *)
 
@@ -48,10 +48,13 @@ Fixpoint declare_all (xs : list name) (sc : sframes) : cres * sframes :=
 
 Section Check.
   Variable spec : bool.
+  (* collect_ok = false rejects every COLLECT: used only to state the soundness
+     theorem for the COLLECT-free fragment (Proofs/ScopeSound.v) *)
+  Variable collect_ok : bool.
 
   Fixpoint chk_expr (fuel : nat) (e : expr) (sc : sframes) {struct fuel} : cres :=
     match fuel with
-    | O => COk
+    | O => CFuel
     | S fuel' =>
         let go := fun e => chk_expr fuel' e sc in
         let go_list := (fix gl (es : list expr) : cres :=
@@ -82,83 +85,118 @@ Section Check.
         | ESub q => chk_for fuel' q sc
         end
     end
+  (* a loop: the chain of data sources ForExpression builds (Eval.build_ds) is
+     resolved from the inside out; the result is the loop's scope after the
+     last clause, in which the RETURN / nested FOR is resolved *)
   with chk_for (fuel : nat) (q : forq) (sc : sframes) {struct fuel} : cres :=
     match fuel with
-    | O => COk
+    | O => CFuel
     | S fuel' =>
-        let '(pre, vv, kv, body, ret_) :=
+        let '(d, ret_) :=
           match q with
-          | ForIn vv kv src body r => (chk_expr fuel' src sc, vv, kv, body, r)
-          | ForWhile vv _ cond body r => (chk_expr fuel' cond sc, vv, None, body, r)
+          | ForIn vv kv src body r => (build_ds (DIn vv kv src) vv body, r)
+          | ForWhile vv dof cond body r => (build_ds (DWhile dof vv cond) vv body, r)
           end in
-        seq pre (fun _ =>
-          match declare vv (sfork sc) with
-          | (COk, fs0) =>
-              match (match kv with Some k => declare k fs0 | None => (COk, fs0) end) with
-              | (COk, fs1) =>
-                  (fix clauses (cs : list fclause) (fs : sframes) : cres :=
-                     match cs with
-                     | [] =>
-                         match ret_ with
-                         | RReturn _ e => chk_expr fuel' e fs
-                         | RFor q' => chk_for fuel' q' fs
+        match chk_ds fuel' d sc with
+        | (COk, fs) =>
+            match ret_ with
+            | RReturn _ e => chk_expr fuel' e fs
+            | RFor q' => chk_for fuel' q' fs
+            end
+        | (err, _) => err
+        end
+    end
+  with chk_ds (fuel : nat) (d : dsrc) (sc : sframes) {struct fuel} : cres * sframes :=
+    match fuel with
+    | O => (CFuel, sc)
+    | S fuel' =>
+        let chk_list fs := (fix gl (es : list expr) : cres :=
+                              match es with [] => COk | x :: r => seq (chk_expr fuel' x fs) (fun _ => gl r) end) in
+        match d with
+        | DIn vv kv e =>
+            match chk_expr fuel' e sc with
+            | COk =>
+                if bytes_eqb vv [] then (CUnnamed, sc) else
+                match declare vv (sfork sc) with
+                | (COk, fs0) => match kv with Some k => declare k fs0 | None => (COk, fs0) end
+                | r => r
+                end
+            | err => (err, sc)
+            end
+        | DWhile _ vv cond =>
+            match chk_expr fuel' cond sc with
+            | COk => if bytes_eqb vv [] then (CUnnamed, sc) else declare vv (sfork sc)
+            | err => (err, sc)
+            end
+        | DBlock d0 ss =>
+            match chk_ds fuel' d0 sc with
+            | (COk, fs) =>
+                (fix stmts (ss : list fclause) (fs : sframes) : cres * sframes :=
+                   match ss with
+                   | [] => (COk, fs)
+                   | CLet x e :: r =>
+                       if spec then
+                         match chk_expr fuel' e fs with
+                         | COk => match declare x fs with (COk, fs') => stmts r fs' | err => err end
+                         | err => (err, fs)
                          end
-                     | c :: r =>
-                         match c with
-                         | CLet x e =>
-                             if spec then
-                               seq (chk_expr fuel' e fs) (fun _ =>
-                                 match declare x fs with (COk, fs') => clauses r fs' | (err, _) => err end)
-                             else
-                               match declare x fs with
-                               | (COk, fs') => seq (chk_expr fuel' e fs') (fun _ => clauses r fs')
-                               | (err, _) => err
-                               end
-                         | CCall e | CFilter e => seq (chk_expr fuel' e fs) (fun _ => clauses r fs)
-                         | CSort ks =>
-                             seq ((fix gk (ks : list (expr * bool)) : cres :=
-                                     match ks with [] => COk | (e, _) :: kr => seq (chk_expr fuel' e fs) (fun _ => gk kr) end) ks)
-                                 (fun _ => clauses r fs)
-                         | CLimit off cnt =>
-                             let lsc := if spec then sc else fs in
-                             seq (match off with Some o => chk_expr fuel' o lsc | None => COk end) (fun _ =>
-                               seq (chk_expr fuel' cnt lsc) (fun _ => clauses r fs))
-                         | CCollect gs t =>
-                             seq ((fix gg (gs : list (name * expr)) : cres :=
-                                     match gs with [] => COk | (_, e) :: gr => seq (chk_expr fuel' e fs) (fun _ => gg gr) end) gs)
-                               (fun _ =>
-                                seq (match t with
-                                     | CTInto _ (Some pe) => chk_expr fuel' pe fs
-                                     | CTInto _ None => if spec then (if visible vv fs then COk else CNotFound) else COk
-                                     | CTAggr sels =>
-                                         (fix ga (ss : list (name * name * list expr)) : cres :=
-                                            match ss with
-                                            | [] => COk
-                                            | (_, _, args) :: sr =>
-                                                seq ((fix gl (es : list expr) : cres :=
-                                                        match es with [] => COk | a :: ar => seq (chk_expr fuel' a fs) (fun _ => gl ar) end) args)
-                                                    (fun _ => ga sr)
-                                            end) sels
-                                     | _ => COk
-                                     end)
-                                  (fun _ =>
-                                     let vars := map fst gs ++
-                                                 match t with
-                                                 | CTInto x _ => [x]
-                                                 | CTCount x => [x]
-                                                 | CTAggr sels => map (fun s => fst (fst s)) sels
-                                                 | CTNone => []
-                                                 end in
-                                     match declare_all vars (clear_top fs) with
-                                     | (COk, fs') => clauses r fs'
-                                     | (err, _) => err
-                                     end))
+                       else
+                         match declare x fs with
+                         | (COk, fs') => match chk_expr fuel' e fs' with COk => stmts r fs' | err => (err, fs') end
+                         | err => err
                          end
-                     end) body fs1
-              | (err, _) => err
-              end
-          | (err, _) => err
-          end)
+                   | CCall e :: r => match chk_expr fuel' e fs with COk => stmts r fs | err => (err, fs) end
+                   | _ :: r => stmts r fs
+                   end) ss fs
+            | r => r
+            end
+        | DFilter d0 e =>
+            match chk_ds fuel' d0 sc with
+            | (COk, fs) => (chk_expr fuel' e fs, fs)
+            | r => r
+            end
+        | DSort d0 ks =>
+            match chk_ds fuel' d0 sc with
+            | (COk, fs) => (chk_list fs (map fst ks), fs)
+            | r => r
+            end
+        | DLimit d0 cnt off =>
+            match chk_ds fuel' d0 sc with
+            | (COk, fs) =>
+                let lsc := if spec then sc else fs in
+                (seq (chk_expr fuel' off lsc) (fun _ => chk_expr fuel' cnt lsc), fs)
+            | r => r
+            end
+        | DCollect d0 gs t vv =>
+            if negb collect_ok then (CNotFound, sc) else
+            match chk_ds fuel' d0 sc with
+            | (COk, fs) =>
+                match seq (chk_list fs (map snd gs)) (fun _ =>
+                        match t with
+                        | CTInto _ (Some pe) => chk_expr fuel' pe fs
+                        | CTInto _ None => if spec then (if visible vv fs then COk else CNotFound) else COk
+                        | CTAggr sels =>
+                            (fix ga (ss : list (name * name * list expr)) : cres :=
+                               match ss with
+                               | [] => COk
+                               | (_, _, args) :: sr => seq (chk_list fs args) (fun _ => ga sr)
+                               end) sels
+                        | _ => COk
+                        end) with
+                | COk =>
+                    let vars := map fst gs ++
+                                match t with
+                                | CTInto x _ => [x]
+                                | CTCount x => [x]
+                                | CTAggr sels => map (fun s => fst (fst s)) sels
+                                | CTNone => []
+                                end in
+                    declare_all vars (clear_top fs)
+                | err => (err, fs)
+                end
+            | r => r
+            end
+        end
     end.
 
   Definition chk_program (fuel : nat) (p : program) : cres :=
@@ -180,3 +218,6 @@ Section Check.
        | SCall e :: r => seq (chk_expr fuel e sc) (fun _ => stmts r sc)
        end) (p_stmts p) [[]].
 End Check.
+
+(* the checker the correspondence uses: COLLECT allowed *)
+Notation chk_program_all := (fun spec => chk_program spec true).
